@@ -17,7 +17,7 @@ def make_shapes(tier, seed, features=(), extra_random=None):
 def build(res, tier, seed, features, with_setters=False, shapes_list=None, profile='release'):
     sh = shapes_list if shapes_list is not None else make_shapes(tier, seed, features)
     shapes.write_shapes(sh, with_setters)
-    binp = core.build_harness(res, features, profile=profile)
+    binp = core.build_harness(res, features, profile=profile, shapes_written=True)
     return sh, binp
 
 
